@@ -278,7 +278,8 @@ def summarize(F, key):
             must.append(k)
     # order: A before sink B
     order = []
-    checks = [c for c in calls if c["kind"] in GATE and c["ws"]]
+    # (a call whose verdict is merely handed on - `let r = f(); .. return r` - has no success edge of its own: "before" would only mean "called")
+    checks = [c for c in calls if c["kind"] in GATE and c["kind"] != "plain-return" and c["ws"]]
     ckeys = sorted({c["key"] for c in checks})
     for bk, blst in sorted(by_key.items()):
         if not any(c["sink"] for c in blst):
@@ -1518,13 +1519,16 @@ def check(ctx, prop, also=()):
                     n["flags"] += 1
                     def fkey(sg):
                         # a test of a call's verdict is that call's test however its operands are spelled; a comparison is its operator and origins
+                        calls_ = frozenset(a for a in list(sg[1]) + list(sg[2]) if a.startswith("call:"))
                         if sg[0] == "branch" and sg[2]:
-                            return ("h", frozenset(sg[2]))
-                        return ("c", sg[0], frozenset(_core(F, sg)))
+                            return ("h", frozenset(sg[2]), None, calls_)
+                        return ("c", sg[0], frozenset(_core(F, sg)), calls_)
 
                     def fmatch(ck, bk_):
                         if ck[0] != bk_[0]:
-                            return False
+                            # the verdict of a call tested by matching on it, or by comparing what it returned (`r.err() == Some(E)`): the same call's test
+                            h_, c_ = (ck, bk_) if ck[0] == "h" else (bk_, ck)
+                            return any("call:" + x[5:] in c_[3] for x in h_[1])
                         if ck[0] == "h":
                             return ck[1] == bk_[1]
                         return ck[1] == bk_[1] and (ck[2] <= bk_[2] or bk_[2] <= ck[2])
